@@ -893,6 +893,7 @@ zap_links(vbi_page *pg, int row)
 	vbi_char *acp;
 	vbi_bool link[43];
 	int i, j, n, b;
+	int n_chars;
 
 	acp = &pg->text[row * EXT_COLUMNS];
 
@@ -908,7 +909,11 @@ zap_links(vbi_page *pg, int row)
 	buffer[j + 1] = ' ';
 	buffer[j + 2] = 0;
 
-	for (i = 0; i < COLUMNS; i += n) { 
+	/* Double width and size characters occupy two columns
+	   but one place in the buffer. */
+	n_chars = j;
+
+	for (i = 0; i < n_chars; i += n) { 
 		n = keyword(&ld, buffer, i + 1,
 			pg->pgno, pg->subno, &b);
 
